@@ -30,8 +30,11 @@ macro_rules! dispatch {
             "C13" => $f(&props::cli::C13, $($arg),*),
             "C16" => $f(&props::cli3::C16, $($arg),*),
             "C17" => $f(&props::cli3::C17, $($arg),*),
+            "C18" => $f(&props::hooks::C18, $($arg),*),
             "C19" => $f(&props::cli3::C19, $($arg),*),
             "C20" => $f(&props::place::C20, $($arg),*),
+            "C06" => $f(&props::hooks::C06, $($arg),*),
+            "C07" => $f(&props::hooks::C07, $($arg),*),
             "C08" => $f(&props::cli2::C08, $($arg),*),
             "C09" => $f(&props::cli2::C09, $($arg),*),
             "C10" => $f(&props::cli2::C10, $($arg),*),
